@@ -90,6 +90,13 @@ Section CliPool.
     intros s NF R T. unfold stdout_of. apply Permutation_flat_map. now apply cli_multiset.
   Qed.
 
+  (* blocks are never split and every file's blocks keep their order *)
+  Theorem cli_interleaving : forall s, cli_reachable s -> terminal s ->
+    out s = concat (log s)
+    /\ Permutation (scanned s) (sent_files (producer io t))
+    /\ MergeR (map (fun l => [l]) (producer_lines (producer io t)) :: map (worker_blocks o lib) (scanned s)) (log s).
+  Proof. intros s R T. eapply output_interleaving; eauto. Qed.
+
   Theorem cli_progress : forall s, (0 < n)%nat -> (0 < cap)%nat -> cli_reachable s -> ~ terminal s ->
     exists s', step (worker_blocks o lib) cap s s'.
   Proof. intros s Hn Hc R NT. exact (progress _ _ (worker_blocks o lib) cap (producer io t) n s Hn Hc R NT). Qed.
